@@ -5,18 +5,18 @@ From Coq Require Import Lia ZifyBool ZifyN ZifyNat Sorted Arith.
 Local Open Scope N_scope.
 Ltac Zify.zify_post_hook ::= Z.div_mod_to_equations.
 
-(* runs are non-empty, ascending, disjoint, inside 0..65535 *)
+(* runs are non-empty (16-bit lengths), ascending, disjoint, inside 0..65535 *)
 Fixpoint runs_ok (lo : N) (runs : list (N * N)) : Prop :=
   match runs with
   | [] => True
-  | r :: t => lo <= fst r /\ 1 <= snd r /\ fst r + snd r <= 65536 /\ runs_ok (fst r + snd r) t
+  | r :: t => lo <= fst r /\ 1 <= snd r <= 65535 /\ fst r + snd r <= 65536 /\ runs_ok (fst r + snd r) t
   end.
 
 Fixpoint runs_sum (runs : list (N * N)) : N :=
   match runs with [] => 0 | r :: t => snd r + runs_sum t end.
 
 Lemma runs_ok_weaken lo lo' runs : lo' <= lo -> runs_ok lo runs -> runs_ok lo' runs.
-Proof. destruct runs as [|r t]; [trivial|]. cbn [runs_ok]. intros H (A & B & C & D). repeat split; try assumption. lia. Qed.
+Proof. destruct runs as [|r t]; [trivial|]. cbn [runs_ok]. intros H (A & B & C & D). repeat split; try assumption; lia. Qed.
 
 Lemma map_add_nseq s k n : map (fun j => s + j) (nseq k n) = nseq (s + k) n.
 Proof.
